@@ -559,4 +559,6 @@ def build():
     for _name, _fn in _C15.build().ground:
         if _name == "cell-style-key-reads-every-cell-attribute":
             plan.ground.append((_name, _fn))
+    from contracts.shared_ground import allocators_are_not_memoised
+    plan.ground.append(("allocators-are-not-memoised", allocators_are_not_memoised))
     return plan
